@@ -155,7 +155,7 @@ def worker_main(pid, tier, seed, w, W, outfile):
     # any other exception of the code under test) instead of exhausting the machine
     try:
         import resource
-        cap = int(float(os.environ.get("VERIF_WORKER_MEM_GB", "6")) * 2 ** 30)
+        cap = int(float(os.environ.get("VERIF_WORKER_MEM_GB", "4")) * 2 ** 30)
         resource.setrlimit(resource.RLIMIT_AS, (cap, cap))
     except Exception:
         pass
@@ -289,7 +289,7 @@ def _limit_memory():
     """address-space guard (see worker_main): also for the parent, which replays the saved inputs itself"""
     try:
         import resource
-        cap = int(float(os.environ.get("VERIF_WORKER_MEM_GB", "6")) * 2 ** 30)
+        cap = int(float(os.environ.get("VERIF_WORKER_MEM_GB", "4")) * 2 ** 30)
         resource.setrlimit(resource.RLIMIT_AS, (cap, cap))
     except Exception:
         pass
